@@ -111,6 +111,9 @@ type Cluster struct {
 	idem     map[string]string
 	next     int
 	nextIP   int
+	// LimitV4 / LimitV6: addresses one interface can hold (0 = unlimited). The cloud itself refuses an assign beyond
+	// it (InvalidOperation.Ipv4CountExceeded / Ipv6CountExceeded), whatever the caller believes the interface holds.
+	LimitV4, LimitV6 int
 }
 
 func NewCluster() *Cluster {
@@ -596,6 +599,36 @@ func (c *Cluster) assign(op, eniID string, n int, v6 bool) ([]string, error) {
 		c.end(call, fmt.Errorf("x"))
 		return nil, apiError(apiErr.ErrInvalidENINotFound)
 	}
+	sig := fmt.Sprintf("%s|%s|%d", op, eniID, n)
+	if prev, ok := c.idem[sig]; ok && f == "" {
+		// same parameters as the assign whose reply was lost => same client token (pkg/aliyun/client options.go) =>
+		// the cloud answers with the addresses it already assigned instead of assigning more
+		delete(c.idem, sig)
+		var still []string
+		for _, ip := range strings.Split(prev, ",") {
+			for _, have := range append(append([]string{}, e.V4...), e.V6...) {
+				if have == ip {
+					still = append(still, ip)
+				}
+			}
+		}
+		if len(still) == n {
+			call.IPs = still
+			call.Fault = "idempotent-replay"
+			c.end(call, nil)
+			return still, nil
+		}
+	}
+	if lim := c.LimitV4; !v6 && lim > 0 && len(e.V4)+n > lim {
+		call.Fault = "cloud-limit"
+		c.end(call, fmt.Errorf("x"))
+		return nil, apiError(apiErr.ErrIPv4CountExceeded)
+	}
+	if lim := c.LimitV6; v6 && lim > 0 && len(e.V6)+n > lim {
+		call.Fault = "cloud-limit"
+		c.end(call, fmt.Errorf("x"))
+		return nil, apiError(apiErr.ErrIPv6CountExceeded)
+	}
 	v := c.VSW[e.VSwitch]
 	if v != nil && v.Free < int64(n) {
 		c.end(call, fmt.Errorf("x"))
@@ -618,6 +651,7 @@ func (c *Cluster) assign(op, eniID string, n int, v6 bool) ([]string, error) {
 	}
 	call.IPs = ips
 	if f == "after" {
+		c.idem[sig] = strings.Join(ips, ",")
 		c.end(call, fmt.Errorf("x"))
 		return nil, fmt.Errorf("simulated: assign timed out after it took effect")
 	}
@@ -769,6 +803,15 @@ func (c *Cluster) Canon() string {
 			continue
 		}
 		out = append(out, fmt.Sprintf("%s[%s %s %s inst=%s v4=%v v6=%v]", id, e.Type, e.TrafficMode, e.Status, e.InstanceID, e.V4, e.V6))
+	}
+	// replies still owed to a retry with the same client token: part of the state (they change what a retry does)
+	var pend []string
+	for k, v := range c.idem {
+		pend = append(pend, k+"=>"+v)
+	}
+	sort.Strings(pend)
+	if len(pend) > 0 {
+		out = append(out, "idem"+fmt.Sprint(pend))
 	}
 	return strings.Join(out, " ")
 }
